@@ -5,6 +5,7 @@ pub fn dispatch(v: &Value) -> Value {
         "bdd_script" => bdd_script(v),
         "adf_sem" => adf_sem(v),
         "iter" => iter_cmd(v),
+        "mirror" => mirror_cmd(v),
         "ng" => ng_cmd(v),
         "bdd_query" => bdd_query(v),
         "counts_kernel" => {
@@ -302,4 +303,71 @@ pub fn ng_cmd(v: &Value) -> Value {
         steps += 1;
     };
     json!({"conclusions": concl, "closure": closure})
+}
+
+/// one step of a bdd script on an existing store (shared by bdd_script-like commands)
+fn script_step(bdd: &mut Bdd, handles: &mut Vec<Term>, st: &Value, n: usize) {
+    let op = st["op"].as_str().unwrap();
+    let h = |k: &str| handles[us(&st[k])];
+    let r = match op {
+        "shannon" => {
+            let bits: Vec<u8> = st["bits"].as_array().unwrap().iter().map(|b| b.as_u64().unwrap() as u8).collect();
+            shannon(bdd, &bits, n, 0, 0)
+        }
+        "variable" => bdd.variable(Var(us(&st["var"]))),
+        "constant" => Bdd::constant(st["val"].as_bool().unwrap()),
+        "not" => bdd.not(h("a")),
+        "and" => bdd.and(h("a"), h("b")),
+        "or" => bdd.or(h("a"), h("b")),
+        "imp" => bdd.imp(h("a"), h("b")),
+        "iff" => bdd.iff(h("a"), h("b")),
+        "xor" => bdd.xor(h("a"), h("b")),
+        "restrict" => bdd.restrict(h("a"), Var(us(&st["var"])), st["val"].as_bool().unwrap()),
+        _ => panic!("unknown op {}", op),
+    };
+    handles.push(r);
+}
+
+/// producer -> relay -> last with a deterministic schedule: the producer runs to completion into a staging channel;
+/// before each poll exactly `cut` messages in total have been forwarded from the staging channel to the relay's channel
+#[cfg(feature = "frontend")]
+pub fn mirror_cmd(v: &Value) -> Value {
+    let n = us(&v["n"]);
+    let (stage_s, stage_r) = crossbeam_channel::unbounded();
+    let (s1, r1) = crossbeam_channel::unbounded();
+    let (s2, r2) = crossbeam_channel::unbounded();
+    let mut prod = Bdd::with_sender(stage_s);
+    let mut relay = Bdd::with_sender_receiver(s2, r1);
+    let mut last = Bdd::with_receiver(r2);
+    let mut handles = Vec::new();
+    for st in v["script"].as_array().unwrap() {
+        script_step(&mut prod, &mut handles, st, n);
+    }
+    let total = prod.nodes.len() - 2;
+    let mut forwarded = 0usize;
+    let mut polls = Vec::new();
+    for pl in v["polls"].as_array().unwrap() {
+        let who = pl["who"].as_str().unwrap();
+        let cut = if who == "drain" { total } else { us(&pl["cut"]).min(total) };
+        while forwarded < cut {
+            if let Ok(m) = stage_r.try_recv() {
+                s1.send(m).unwrap();
+            }
+            forwarded += 1;
+        }
+        if who == "drain" {
+            relay.recv(Term(usize::MAX));
+            last.recv(Term(usize::MAX));
+            continue;
+        }
+        let term = Term(us(&pl["term"]));
+        let ret = if who == "relay" { relay.recv(term) } else { last.recv(term) };
+        polls.push(json!({"ret": ret, "relay": dump_nodes(&relay), "last": dump_nodes(&last),
+                          "relay_consumed": relay.nodes.len() - 2, "last_consumed": last.nodes.len() - 2}));
+    }
+    json!({"producer": dump_nodes(&prod), "polls": polls, "final_relay": dump_nodes(&relay), "final_last": dump_nodes(&last)})
+}
+#[cfg(not(feature = "frontend"))]
+pub fn mirror_cmd(_v: &Value) -> Value {
+    json!({"error": "frontend feature off"})
 }
